@@ -6,7 +6,8 @@ cd "$(dirname "$0")"
 export GOFLAGS=-mod=mod GOPROXY=off GOSUMDB=off GOTOOLCHAIN=local
 mkdir -p build evidence
 cp /repo/go.sum harness/go.sum
-(cd harness && go build -tags verif -o ../build/vh ./cmd/vh)
+(cd harness && go build -tags verif -o ../build/vh ./cmd/vh && go build -race -tags verif -o ../build/vh-race ./cmd/vh)
+(cd /repo && go build -o /verif/build/relic . ) || true
 if [ -d java ]; then
   mkdir -p build/java && javac -d build/java --add-exports java.xml.crypto/com.sun.org.apache.xml.internal.security=ALL-UNNAMED --add-exports java.xml.crypto/com.sun.org.apache.xml.internal.security.c14n=ALL-UNNAMED java/*.java 2>/dev/null || true
 fi
